@@ -250,9 +250,10 @@ func (s *verifSrvL) ServeHTTP(w http.ResponseWriter, r *http.Request) {
 	s.err = httpx.Parse(r, &s.got)
 }
 
-// verifIntList: n symbolic ints; element 0 in [-wide, wide], the others in [-9, 9]
-// (every element's sign and digit count is a fork of the decimal rendering).
-func verifIntList(name string, n, wide int) []int {
+// verifIntList: n symbolic ints; element 0 in [-wide, wide], the others in
+// [restLo, 9] (every element's sign and digit count is a fork of the decimal
+// rendering, so only some elements range over both signs / several digits).
+func verifIntList(name string, n, wide, restLo int) []int {
 	l := make([]int, n)
 	for i := 0; i < n; i++ {
 		l[i] = verifInt(name + strconv.Itoa(i))
@@ -260,7 +261,7 @@ func verifIntList(name string, n, wide int) []int {
 			verifAssume(l[i] >= -wide)
 			verifAssume(l[i] <= wide)
 		} else {
-			verifAssume(l[i] >= -9)
+			verifAssume(l[i] >= restLo)
 			verifAssume(l[i] <= 9)
 		}
 	}
@@ -287,9 +288,9 @@ func Verif_C05_roundtrip_list() {
 
 	var sent verifReqL
 	sent.Key = verifSymStr("key", 1, 'a', 'z')
-	sent.Ids = verifIntList("ids", nIds, verifParam("nmax"))
+	sent.Ids = verifIntList("ids", nIds, verifParam("nmax"), -9)
 	sent.Tags = verifLetterList("tags", nTags)
-	sent.Fi = verifIntList("fi", nF, 9)
+	sent.Fi = verifIntList("fi", nF, 9, 0)
 	sent.Fs = verifLetterList("fs", nF)
 
 	creq, err := buildRequest(context.Background(), method, "http://host/items/:key", &sent)
